@@ -47,6 +47,10 @@ func (t Tuple) Reverse() {
 // output the tuple to out, using fn to transform the tuple to out
 // start and end brackets
 func (t Tuple) repr(start, end string) (Object, error) {
+	if err := enterContainer(); err != nil {
+		return nil, err
+	}
+	defer leaveContainer()
 	var out bytes.Buffer
 	out.WriteString(start)
 	for i, obj := range t {
@@ -157,6 +161,10 @@ func (a Tuple) M__imul__(other Object) (Object, error) {
 }
 
 func (a Tuple) M__eq__(other Object) (Object, error) {
+	if err := enterContainer(); err != nil {
+		return nil, err
+	}
+	defer leaveContainer()
 	b, ok := other.(Tuple)
 	if !ok {
 		return NotImplemented, nil
@@ -177,6 +185,10 @@ func (a Tuple) M__eq__(other Object) (Object, error) {
 }
 
 func (a Tuple) M__ne__(other Object) (Object, error) {
+	if err := enterContainer(); err != nil {
+		return nil, err
+	}
+	defer leaveContainer()
 	b, ok := other.(Tuple)
 	if !ok {
 		return NotImplemented, nil
